@@ -3841,3 +3841,16 @@ impl TransportManager {
         )
     }
 }
+
+#[cfg(litep2p_verif)]
+impl TransportManager {
+    /// Take one event out of the channel connections report closure on, without handling it
+    /// (verification hook for the service harness, which has no manager loop running).
+    pub fn verif_try_recv_event(&mut self) -> Option<(PeerId, usize)> {
+        match self.event_rx.try_recv() {
+            Ok(TransportManagerEvent::ConnectionClosed { peer, connection }) =>
+                Some((peer, connection.verif_as_usize())),
+            Err(_) => None,
+        }
+    }
+}
